@@ -415,6 +415,9 @@ class CMakeTraceParser:
         magic_keys = ['OUTPUT', 'COMMAND', 'MAIN_DEPENDENCY', 'DEPENDS', 'BYPRODUCTS',
                       'IMPLICIT_DEPENDS', 'WORKING_DIRECTORY', 'COMMENT', 'DEPFILE',
                       'JOB_POOL', 'VERBATIM', 'APPEND', 'USES_TERMINAL', 'COMMAND_EXPAND_LISTS']
+        if name:
+            # add_custom_target() also has SOURCES
+            magic_keys += ['SOURCES']
 
         target = CMakeGeneratorTarget(name)
 
